@@ -503,7 +503,8 @@ def replay_failure(slot, prop, ob, ov, caps, consts, logdir, unknown=None):
     lf = os.path.join(logdir, ob['id'].replace('/', '_') + '.playback.log')
     cmd = ['cargo', 'kani', '--target-dir', slot.kani_target, '-Z', 'stubbing', '--harness', ob['harness'], '--exact', '-Z', 'concrete-playback', '--concrete-playback=print']
     cmd += ob.get('kani_args', [])
-    rc, to, dt = run_capped(cmd, ov, lf, ob.get('timeout', 900) * 2, ob.get('mem_gb', 28))
+    # trace extraction needs noticeably more memory than the verdict alone
+    rc, to, dt = run_capped(cmd, ov, lf, ob.get('timeout', 900) * 2, max(2 * ob.get('mem_gb', 16), 40))
     text = open(lf, errors='replace').read()
     test = extract_playback_test(text)
     meta = {'property': prop, 'obligation': ob['id'], 'harness': ob['harness'], 'part': ob['part'], 'caps': caps, 'consts': consts, 'needs_parts': ob.get('needs_parts', [])}
